@@ -1,13 +1,1458 @@
-//! C13 — not yet implemented
-use crate::core::{Ctx, Outcome};
-use serde_json::Value;
+//! C13 — Market-data messages are attributed to the subscribed instrument, or rejected.
+//!
+//! Engine: E-SEQ over *configurations*. For each of the 21 (connector, subscription kind) arms of
+//! `DynamicStreams::init` and for four instrument flavours
+//!   * `keyed`  = `Keyed<u32, MarketDataInstrument>`   (market derived from base/quote/kind),
+//!   * `named`  = `MarketInstrumentData<u32>`           (exchange name verbatim – the engine's path),
+//!   * `plain`  = `MarketDataInstrument`                (key = the instrument itself),
+//!   * `indexed`= `MarketInstrumentData<InstrumentIndex>` produced by the real
+//!                `generate_indexed_market_data_subscription_batches` from real `IndexedInstruments`,
+//! and for every ordered instrument set drawn from a per-connector menu (mixed-case names, digits,
+//! similar prefixes, same-concatenation pairs, several expiries / strikes) the REAL code is run:
+//! `WebSocketSubMapper::map::<Exchange,_,_>` -> (Bitfinex only: real
+//! `BitfinexWebSocketSubValidator::validate` against a scripted Bitfinex on loopback TCP) ->
+//! `ExchangeTransformer::init` of the transformer type the connector's `StreamSelector` names ->
+//! for every market of the venue universe (subscribed or not) synthesised payloads ->
+//! `serde_json::from_str::<Transformer::Input>` -> `Transformer::transform`.
+//!
+//! Message side: payload templates and the venue's way of writing a market are taken from the raw
+//! payload examples in the connectors' doc comments / unit-test fixtures (`venue_symbol`, `make_msgs`),
+//! never from the mapper.
+//!
+//! Oracle (from the statement):
+//!   R1 a message for a market with >=1 subscribed instrument yields exactly the payload's n events, all Ok;
+//!   R2 every event carries the key of an instrument subscribed under that market (if two subscribed
+//!      instruments share the market either is accepted – the statement cannot separate them);
+//!   R3 `exchange == Connector::ID`;
+//!   R4 price / amount / side / exchange time equal the payload's (a signed or an absolute amount is
+//!      accepted where the venue encodes the side in the sign; any time stamp the message carries);
+//!   R5 a message for a market nobody subscribed yields only `Err`s that denote an unidentifiable
+//!      subscription – never an event, never silence.
 
-pub fn run(_ctx: &Ctx) -> Outcome {
-    eprintln!("MACHINERY: C13 not implemented");
-    std::process::exit(2)
+use crate::core::{Ctx, Distinct, Outcome, Samples, hash_of};
+use barter_data::{
+    Identifier,
+    books::OrderBook,
+    event::MarketEvent,
+    exchange::{
+        Connector, StreamSelector,
+        binance::{book::l2::BinanceOrderBookL2Snapshot, futures::BinanceFuturesUsd, spot::BinanceSpot},
+        bitfinex::{Bitfinex, validator::BitfinexWebSocketSubValidator},
+        bitmex::Bitmex,
+        bybit::{futures::BybitPerpetualsUsd, spot::BybitSpot},
+        coinbase::Coinbase,
+        gateio::{
+            future::{GateioFuturesBtc, GateioFuturesUsd},
+            option::GateioOptions,
+            perpetual::{GateioPerpetualsBtc, GateioPerpetualsUsd},
+            spot::GateioSpot,
+        },
+        kraken::Kraken,
+        okx::Okx,
+    },
+    instrument::{InstrumentData, MarketInstrumentData},
+    subscriber::{
+        mapper::{SubscriptionMapper, WebSocketSubMapper},
+        validator::SubscriptionValidator,
+    },
+    streams::builder::dynamic::indexed::generate_indexed_market_data_subscription_batches,
+    subscription::{
+        Map, SubKind, Subscription, SubscriptionKind, SubscriptionMeta,
+        book::{OrderBookEvent, OrderBookL1, OrderBooksL1, OrderBooksL2},
+        exchange_supports_instrument_kind_sub_kind,
+        liquidation::{Liquidation, Liquidations},
+        trade::{PublicTrade, PublicTrades},
+    },
+    transformer::ExchangeTransformer,
+};
+use barter_instrument::{
+    Keyed, Side, Underlying,
+    asset::Asset,
+    exchange::ExchangeId,
+    index::IndexedInstruments,
+    instrument::{
+        Instrument, InstrumentIndex,
+        kind::{
+            InstrumentKind,
+            future::FutureContract,
+            option::{OptionContract, OptionExercise, OptionKind},
+            perpetual::PerpetualContract,
+        },
+        market_data::{
+            MarketDataInstrument,
+            kind::{MarketDataFutureContract, MarketDataInstrumentKind, MarketDataOptionContract},
+        },
+        name::{InstrumentNameExchange, InstrumentNameInternal},
+        quote::InstrumentQuoteAsset,
+    },
+};
+use barter_integration::{
+    Transformer,
+    protocol::{StreamParser, websocket::WsMessage},
+    stream::ExchangeStream,
+};
+use chrono::{DateTime, SecondsFormat, TimeZone, Utc};
+use futures::{SinkExt, Stream, StreamExt};
+use rayon::prelude::*;
+use rust_decimal::{Decimal, prelude::ToPrimitive};
+use serde_json::{Value, json};
+use std::{
+    collections::{BTreeMap, BTreeSet},
+    fmt::Debug,
+    panic::{AssertUnwindSafe, catch_unwind},
+    sync::{
+        Mutex,
+        atomic::{AtomicU64, Ordering::Relaxed},
+    },
+};
+
+// ------------------------------------------------------------------------------------------------
+// Alphabet: connectors, kinds, instrument menus
+// ------------------------------------------------------------------------------------------------
+
+/// Connector families (one message format / one `*_market` function each).
+#[derive(Clone, Copy, Debug, PartialEq, Eq, PartialOrd, Ord)]
+enum Fam {
+    Binance,
+    Bitfinex,
+    Bitmex,
+    Bybit,
+    Coinbase,
+    Gateio,
+    Kraken,
+    Okx,
 }
 
-pub fn replay(_ctx: &Ctx, _case: &Value) {
-    eprintln!("MACHINERY: C13 not implemented");
-    std::process::exit(2)
+#[derive(Clone, Copy, Debug, PartialEq, Eq)]
+enum SK {
+    Trades,
+    L1,
+    L2,
+    Liq,
+}
+impl SK {
+    fn sub_kind(self) -> SubKind {
+        match self {
+            SK::Trades => SubKind::PublicTrades,
+            SK::L1 => SubKind::OrderBooksL1,
+            SK::L2 => SubKind::OrderBooksL2,
+            SK::Liq => SubKind::Liquidations,
+        }
+    }
+}
+
+/// Instrument kind of a menu entry. Dates are yyyymmdd.
+#[derive(Clone, Copy, Debug, PartialEq, Eq)]
+enum IK {
+    Spot,
+    Perp,
+    Fut(u32),
+    /// (expiry, strike, is_call)
+    Opt(u32, u32, bool),
+}
+impl IK {
+    fn tag(&self) -> &'static str {
+        match self {
+            IK::Spot => "spot",
+            IK::Perp => "perpetual",
+            IK::Fut(_) => "future",
+            IK::Opt(..) => "option",
+        }
+    }
+    fn real(&self) -> MarketDataInstrumentKind {
+        match *self {
+            IK::Spot => MarketDataInstrumentKind::Spot,
+            IK::Perp => MarketDataInstrumentKind::Perpetual,
+            IK::Fut(d) => MarketDataInstrumentKind::Future(MarketDataFutureContract { expiry: ymd(d) }),
+            IK::Opt(d, strike, call) => MarketDataInstrumentKind::Option(MarketDataOptionContract {
+                kind: if call { OptionKind::Call } else { OptionKind::Put },
+                exercise: OptionExercise::European,
+                expiry: ymd(d),
+                strike: Decimal::from(strike),
+            }),
+        }
+    }
+}
+fn ymd(d: u32) -> DateTime<Utc> {
+    Utc.with_ymd_and_hms((d / 10000) as i32, (d / 100) % 100, d % 100, 8, 0, 0).unwrap()
+}
+
+/// One menu instrument as the *user* writes it (base / quote may be mixed case).
+#[derive(Clone, Copy, Debug)]
+struct MI {
+    base: &'static str,
+    quote: &'static str,
+    kind: IK,
+}
+const fn mi(base: &'static str, quote: &'static str, kind: IK) -> MI {
+    MI { base, quote, kind }
+}
+
+/// The pairs every single-kind connector is exercised with: plain, mixed case, shared prefix, digits in the
+/// middle / at the start, two pairs with the same concatenation (eth/btc vs ethb/tc), xbt naming, a reversed pair.
+const PAIRS: [(&str, &str); 9] = [
+    ("btc", "usdt"),
+    ("BTC", "usdt"),
+    ("btc", "usd"),
+    ("btc2", "usdt"),
+    ("1inch", "usdt"),
+    ("eth", "btc"),
+    ("ethb", "tc"),
+    ("xbt", "usd"),
+    ("usdt", "btc"),
+];
+fn pairs_menu(kind: IK) -> Vec<MI> {
+    PAIRS.iter().map(|(b, q)| mi(b, q, kind)).collect()
+}
+/// 2020-12-25 is the expiry used in the Gate.io doc comment; 2027-01-01 is a Friday whose ISO week-year (2026)
+/// differs from its calendar year; 2024-12-30 is a Monday whose ISO week-year is 2025.
+fn gateio_future_menu() -> Vec<MI> {
+    vec![
+        mi("btc", "usdt", IK::Fut(20201225)),
+        mi("BTC", "usdt", IK::Fut(20201225)),
+        mi("btc", "usdt", IK::Fut(20270101)),
+        mi("btc", "usd", IK::Fut(20201225)),
+        mi("eth", "usdt", IK::Fut(20201225)),
+        mi("eth", "usdt", IK::Fut(20270101)),
+        mi("1inch", "usdt", IK::Fut(20270101)),
+        mi("btc2", "usdt", IK::Fut(20201225)),
+    ]
+}
+fn gateio_option_menu() -> Vec<MI> {
+    vec![
+        mi("btc", "usdt", IK::Opt(20211130, 65000, true)),
+        mi("BTC", "usdt", IK::Opt(20211130, 65000, true)),
+        mi("btc", "usdt", IK::Opt(20211130, 65000, false)),
+        mi("btc", "usdt", IK::Opt(20241230, 65000, true)),
+        mi("btc", "usdt", IK::Opt(20211130, 6500, true)),
+        mi("eth", "usdt", IK::Opt(20211130, 65000, true)),
+        mi("btc", "usd", IK::Opt(20211130, 65000, true)),
+    ]
+}
+fn okx_menu() -> Vec<MI> {
+    vec![
+        mi("btc", "usdt", IK::Spot),
+        mi("BTC", "usdt", IK::Spot),
+        mi("btc", "usdt", IK::Perp),
+        mi("btc", "usd", IK::Perp),
+        mi("btc", "usd", IK::Fut(20231229)),
+        mi("btc", "usd", IK::Fut(20270101)),
+        mi("btc", "usd", IK::Opt(20231229, 35000, true)),
+        mi("btc", "usd", IK::Opt(20231229, 35000, false)),
+        mi("btc", "usd", IK::Opt(20241230, 35000, true)),
+        mi("1inch", "usdt", IK::Spot),
+        mi("eth", "btc", IK::Spot),
+    ]
+}
+
+/// How the VENUE writes the market of an instrument in its messages (from the doc-comment payloads:
+/// Binance `"s":"ETHUSDT"`, Bitfinex `symbol: "tBTCUSD"`, BitMEX `"symbol":"XBTUSD"`, Bybit
+/// `"topic":"publicTrade.BTCUSDT"`, Coinbase `"product_id":"BTC-USD"`, Gate.io `"currency_pair":"GT_USDT"` /
+/// `"contract":"BTC_USD"` / `"ETH_USDT_QUARTERLY_20201225"` / options `BTC_USDT-20211130-65000-C`
+/// (gate.io options doc linked from market.rs), Kraken `"XBT/USD"`, OKX `"instId":"BTC-USDT"` /
+/// `"BTC-USD-231229-35000-C"`, swaps `BTC-USDT-SWAP`, expiry "230526" = 26th of May 2023).
+fn venue_symbol(fam: Fam, m: &MI) -> String {
+    let b = m.base.to_uppercase();
+    let q = m.quote.to_uppercase();
+    let cp = |call: bool| if call { "C" } else { "P" };
+    match fam {
+        Fam::Binance | Fam::Bybit | Fam::Bitmex => format!("{b}{q}"),
+        Fam::Bitfinex => format!("t{b}{q}"),
+        Fam::Coinbase => format!("{b}-{q}"),
+        Fam::Kraken => format!("{b}/{q}"),
+        Fam::Gateio => match m.kind {
+            IK::Spot | IK::Perp => format!("{b}_{q}"),
+            IK::Fut(d) => format!("{b}_{q}_QUARTERLY_{d:08}"),
+            IK::Opt(d, k, c) => format!("{b}_{q}-{d:08}-{k}-{}", cp(c)),
+        },
+        Fam::Okx => match m.kind {
+            IK::Spot => format!("{b}-{q}"),
+            IK::Perp => format!("{b}-{q}-SWAP"),
+            IK::Fut(d) => format!("{b}-{q}-{:06}", d % 1_000_000),
+            IK::Opt(d, k, c) => format!("{b}-{q}-{:06}-{k}-{}", d % 1_000_000, cp(c)),
+        },
+    }
+}
+
+/// One (connector, subscription kind) arm of `DynamicStreams::init`.
+struct PairSpec {
+    name: &'static str,
+    id: ExchangeId,
+    fam: Fam,
+    sk: SK,
+    menu: Vec<MI>,
+}
+
+fn pair_specs() -> Vec<PairSpec> {
+    use ExchangeId::*;
+    let p = |name, id, fam, sk, menu| PairSpec { name, id, fam, sk, menu };
+    vec![
+        p("BinanceSpot/PublicTrades", BinanceSpot, Fam::Binance, SK::Trades, pairs_menu(IK::Spot)),
+        p("BinanceSpot/OrderBooksL1", BinanceSpot, Fam::Binance, SK::L1, pairs_menu(IK::Spot)),
+        p("BinanceSpot/OrderBooksL2", BinanceSpot, Fam::Binance, SK::L2, pairs_menu(IK::Spot)),
+        p("BinanceFuturesUsd/PublicTrades", BinanceFuturesUsd, Fam::Binance, SK::Trades, pairs_menu(IK::Perp)),
+        p("BinanceFuturesUsd/OrderBooksL1", BinanceFuturesUsd, Fam::Binance, SK::L1, pairs_menu(IK::Perp)),
+        p("BinanceFuturesUsd/OrderBooksL2", BinanceFuturesUsd, Fam::Binance, SK::L2, pairs_menu(IK::Perp)),
+        p("BinanceFuturesUsd/Liquidations", BinanceFuturesUsd, Fam::Binance, SK::Liq, pairs_menu(IK::Perp)),
+        p("Bitfinex/PublicTrades", Bitfinex, Fam::Bitfinex, SK::Trades, pairs_menu(IK::Spot)),
+        p("Bitmex/PublicTrades", Bitmex, Fam::Bitmex, SK::Trades, pairs_menu(IK::Perp)),
+        p("BybitSpot/PublicTrades", BybitSpot, Fam::Bybit, SK::Trades, pairs_menu(IK::Spot)),
+        p("BybitPerpetualsUsd/PublicTrades", BybitPerpetualsUsd, Fam::Bybit, SK::Trades, pairs_menu(IK::Perp)),
+        p("Coinbase/PublicTrades", Coinbase, Fam::Coinbase, SK::Trades, pairs_menu(IK::Spot)),
+        p("GateioSpot/PublicTrades", GateioSpot, Fam::Gateio, SK::Trades, pairs_menu(IK::Spot)),
+        p("GateioFuturesUsd/PublicTrades", GateioFuturesUsd, Fam::Gateio, SK::Trades, gateio_future_menu()),
+        p("GateioFuturesBtc/PublicTrades", GateioFuturesBtc, Fam::Gateio, SK::Trades, gateio_future_menu()),
+        p("GateioPerpetualsUsd/PublicTrades", GateioPerpetualsUsd, Fam::Gateio, SK::Trades, pairs_menu(IK::Perp)),
+        p("GateioPerpetualsBtc/PublicTrades", GateioPerpetualsBtc, Fam::Gateio, SK::Trades, pairs_menu(IK::Perp)),
+        p("GateioOptions/PublicTrades", GateioOptions, Fam::Gateio, SK::Trades, gateio_option_menu()),
+        p("Kraken/PublicTrades", Kraken, Fam::Kraken, SK::Trades, pairs_menu(IK::Spot)),
+        p("Kraken/OrderBooksL1", Kraken, Fam::Kraken, SK::L1, pairs_menu(IK::Spot)),
+        p("Okx/PublicTrades", Okx, Fam::Okx, SK::Trades, okx_menu()),
+    ]
+}
+
+impl PairSpec {
+    /// Venue universe: every distinct market of the menu plus one market that is never in any menu.
+    fn universe(&self) -> Vec<String> {
+        let mut v: Vec<String> = Vec::new();
+        for m in &self.menu {
+            let s = venue_symbol(self.fam, m);
+            if !v.contains(&s) {
+                v.push(s);
+            }
+        }
+        let alien = venue_symbol(self.fam, &mi("doge", "eur", self.menu[0].kind));
+        v.push(alien);
+        v
+    }
+}
+
+const FLAVOURS: [&str; 4] = ["keyed", "named", "plain", "indexed"];
+
+// ------------------------------------------------------------------------------------------------
+// Instrument flavours
+// ------------------------------------------------------------------------------------------------
+
+trait Flav: InstrumentData {
+    fn build(idx: usize, venue_name: &str, m: &MI) -> Self;
+    /// The instrument for every menu entry, in menu order.
+    fn build_menu(spec: &PairSpec) -> Vec<Self> {
+        spec.menu.iter().enumerate().map(|(i, m)| Self::build(i, &venue_symbol(spec.fam, m), m)).collect()
+    }
+}
+/// `indexed` flavour – the engine's path: the menu becomes real `IndexedInstruments` (together with two instruments
+/// of another exchange, internal names permuted so that the `InstrumentIndex` differs from the menu position),
+/// the real `generate_indexed_market_data_subscription_batches` produces the `MarketInstrumentData<InstrumentIndex>`
+/// that `DynamicStreams::init` re-wraps per (exchange, kind).
+impl Flav for MarketInstrumentData<InstrumentIndex> {
+    fn build(_: usize, _: &str, _: &MI) -> Self {
+        unreachable!("built per menu")
+    }
+    fn build_menu(spec: &PairSpec) -> Vec<Self> {
+        let n = spec.menu.len();
+        let mult = if n % 3 == 0 { 5 } else { 3 };
+        let internal = |i: usize| InstrumentNameInternal::new(format!("m{:02}", (i * mult + 1) % n));
+        let mut b = IndexedInstruments::builder()
+            .add_instrument(Instrument::spot(ExchangeId::Mock, "mock_a", "A_B", Underlying::new("a", "b"), None))
+            .add_instrument(Instrument::spot(ExchangeId::Mock, "mock_c", "C_B", Underlying::new("c", "b"), None));
+        for (i, m) in spec.menu.iter().enumerate() {
+            let (base, quote) = (m.base.to_lowercase(), m.quote.to_lowercase());
+            let settle = || Asset::from(quote.as_str());
+            let kind = match m.kind {
+                IK::Spot => InstrumentKind::Spot,
+                IK::Perp => InstrumentKind::Perpetual(PerpetualContract { contract_size: Decimal::ONE, settlement_asset: settle() }),
+                IK::Fut(d) => InstrumentKind::Future(FutureContract { contract_size: Decimal::ONE, settlement_asset: settle(), expiry: ymd(d) }),
+                IK::Opt(d, k, call) => InstrumentKind::Option(OptionContract {
+                    contract_size: Decimal::ONE,
+                    settlement_asset: settle(),
+                    kind: if call { OptionKind::Call } else { OptionKind::Put },
+                    exercise: OptionExercise::European,
+                    expiry: ymd(d),
+                    strike: Decimal::from(k),
+                }),
+            };
+            b = b.add_instrument(Instrument::new(
+                spec.id,
+                internal(i),
+                venue_symbol(spec.fam, m),
+                Underlying::new(base.as_str(), quote.as_str()),
+                InstrumentQuoteAsset::UnderlyingQuote,
+                kind,
+                None,
+            ));
+        }
+        let indexed = b.build();
+        let batches = generate_indexed_market_data_subscription_batches(&indexed, &[spec.sk.sub_kind()]);
+        (0..n)
+            .map(|i| {
+                let key = indexed.find_instrument_index(spec.id, &internal(i)).expect("menu instrument indexed");
+                batches
+                    .iter()
+                    .flatten()
+                    .find(|s| s.exchange == spec.id && s.instrument.key == key)
+                    .expect("generated subscription for menu instrument")
+                    .instrument
+                    .clone()
+            })
+            .collect()
+    }
+}
+impl Flav for Keyed<u32, MarketDataInstrument> {
+    fn build(idx: usize, _: &str, m: &MI) -> Self {
+        Keyed { key: idx as u32, value: MarketDataInstrument::new(m.base, m.quote, m.kind.real()) }
+    }
+}
+impl Flav for MarketInstrumentData<u32> {
+    fn build(idx: usize, venue_name: &str, m: &MI) -> Self {
+        MarketInstrumentData {
+            key: idx as u32,
+            name_exchange: InstrumentNameExchange::new(venue_name),
+            kind: m.kind.real(),
+        }
+    }
+}
+impl Flav for MarketDataInstrument {
+    fn build(_: usize, _: &str, m: &MI) -> Self {
+        MarketDataInstrument::new(m.base, m.quote, m.kind.real())
+    }
+}
+
+// ------------------------------------------------------------------------------------------------
+// Messages (venue side) and expectations
+// ------------------------------------------------------------------------------------------------
+
+/// What the payload states for one event.
+#[derive(Clone, Debug)]
+struct Exp {
+    /// acceptable exchange times (every time stamp the message carries); empty = message carries none
+    times: Vec<DateTime<Utc>>,
+    /// per position the acceptable values
+    nums: Vec<Vec<f64>>,
+    side: Option<Side>,
+}
+
+#[derive(Clone, Debug)]
+struct Msg {
+    market: String,
+    variant: &'static str,
+    json: String,
+    expect: Vec<Exp>,
+}
+
+fn f(s: &str) -> f64 {
+    s.parse().unwrap()
+}
+fn ms(t: i64) -> DateTime<Utc> {
+    Utc.timestamp_millis_opt(t).unwrap()
+}
+fn us(t: i64) -> DateTime<Utc> {
+    Utc.timestamp_micros(t).unwrap()
+}
+fn price(midx: usize, v: usize) -> String {
+    format!("{}.5", 100 + 10 * midx + v)
+}
+const QTY: [&str; 4] = ["0.25", "1.5", "2.125", "3"];
+fn t_ms(midx: usize, v: usize) -> i64 {
+    1_700_000_000_123 + 10_000 * midx as i64 + 7 * v as i64
+}
+fn trade_exp(times: Vec<DateTime<Utc>>, p: &str, q: Vec<f64>, side: Side) -> Exp {
+    Exp { times, nums: vec![vec![f(p)], q], side: Some(side) }
+}
+
+/// Payloads the venue sends for `market` (index `midx` in the venue universe). Bitfinex is handled separately
+/// (its data messages carry the channel id allocated during the handshake instead of the market).
+fn make_msgs(spec: &PairSpec, market: &str, midx: usize) -> Vec<Msg> {
+    let m = |variant: &'static str, json: String, expect: Vec<Exp>| Msg { market: market.to_string(), variant, json, expect };
+    let mut out = Vec::new();
+    let sides = [Side::Buy, Side::Sell];
+    match (spec.fam, spec.sk) {
+        (Fam::Binance, SK::Trades) => {
+            // binance/trade.rs doc comment: spot trade (buyer is maker = false => Buy) and futures trade
+            for (v, side) in sides.iter().enumerate() {
+                let (p, q, t) = (price(midx, v), QTY[v], t_ms(midx, v));
+                let maker = *side == Side::Sell;
+                let json = if spec.id == ExchangeId::BinanceSpot {
+                    format!(r#"{{"e":"trade","E":{},"s":"{market}","t":{},"p":"{p}","q":"{q}","b":10108767791,"a":10108764858,"T":{t},"m":{maker},"M":true}}"#, t + 3, 1000 + v)
+                } else {
+                    format!(r#"{{"e":"trade","E":{},"T":{t},"s":"{market}","t":{},"p":"{p}","q":"{q}","X":"MARKET","m":{maker}}}"#, t + 3, 1000 + v)
+                };
+                out.push(m(if v == 0 { "buy" } else { "sell" }, json, vec![trade_exp(vec![ms(t), ms(t + 3)], &p, vec![f(q)], *side)]));
+            }
+        }
+        (Fam::Binance, SK::L1) => {
+            for v in 0..2 {
+                let (bp, ap, t) = (price(midx, v), price(midx, v + 2), t_ms(midx, v));
+                let (bq, aq) = (QTY[v], QTY[v + 1]);
+                let (json, times) = if spec.id == ExchangeId::BinanceSpot {
+                    (format!(r#"{{"u":22606535573,"s":"{market}","b":"{bp}","B":"{bq}","a":"{ap}","A":"{aq}"}}"#), vec![])
+                } else {
+                    (
+                        format!(r#"{{"e":"bookTicker","u":2286618712950,"s":"{market}","b":"{bp}","B":"{bq}","a":"{ap}","A":"{aq}","T":{t},"E":{}}}"#, t + 3),
+                        vec![ms(t), ms(t + 3)],
+                    )
+                };
+                let nums = vec![vec![f(&bp)], vec![f(bq)], vec![f(&ap)], vec![f(aq)]];
+                out.push(m(if v == 0 { "ticker-0" } else { "ticker-1" }, json, vec![Exp { times, nums, side: None }]));
+            }
+        }
+        (Fam::Binance, SK::L2) => {
+            // first update brackets the snapshot's lastUpdateId (100) for both the spot and the futures
+            // sequencing rule, the second follows on (U = u_prev + 1, pu = u_prev).
+            for (v, (first, last, prev)) in [(100u64, 105u64, 99u64), (106, 110, 105)].into_iter().enumerate() {
+                let t = t_ms(midx, v);
+                let (b1, b2, a1) = (price(midx, v), price(midx, v + 1), price(midx, v + 3));
+                let levels = format!(r#""b":[["{b1}","{}"],["{b2}","{}"]],"a":[["{a1}","{}"]]"#, QTY[0], QTY[1], QTY[2]);
+                let (json, times) = if spec.id == ExchangeId::BinanceSpot {
+                    (format!(r#"{{"e":"depthUpdate","E":{t},"s":"{market}","U":{first},"u":{last},{levels}}}"#), vec![ms(t)])
+                } else {
+                    (
+                        format!(r#"{{"e":"depthUpdate","E":{},"T":{t},"s":"{market}","U":{first},"u":{last},"pu":{prev},{levels}}}"#, t + 3),
+                        vec![ms(t), ms(t + 3)],
+                    )
+                };
+                // bids sorted best (highest) first, then asks
+                let nums = vec![vec![f(&b2)], vec![f(QTY[1])], vec![f(&b1)], vec![f(QTY[0])], vec![f(&a1)], vec![f(QTY[2])]];
+                out.push(m(if v == 0 { "update-1" } else { "update-2" }, json, vec![Exp { times, nums, side: None }]));
+            }
+        }
+        (Fam::Binance, SK::Liq) => {
+            for (v, side) in sides.iter().enumerate() {
+                let (p, q, t) = (price(midx, v), QTY[v], t_ms(midx, v));
+                let s = if *side == Side::Buy { "BUY" } else { "SELL" };
+                let json = format!(
+                    r#"{{"e":"forceOrder","E":{},"o":{{"s":"{market}","S":"{s}","o":"LIMIT","f":"IOC","q":"{q}","p":"{p}","ap":"18990.00","X":"FILLED","l":"{q}","z":"{q}","T":{t}}}}}"#,
+                    t + 5
+                );
+                out.push(m(if v == 0 { "buy" } else { "sell" }, json, vec![trade_exp(vec![ms(t), ms(t + 5)], &p, vec![f(q)], *side)]));
+            }
+        }
+        (Fam::Bitmex, _) => {
+            let row = |v: usize, side: Side| {
+                let t = ms(t_ms(midx, v)).to_rfc3339_opts(SecondsFormat::Millis, true);
+                let size = 100 * (v + 1);
+                let s = if side == Side::Buy { "Buy" } else { "Sell" };
+                (
+                    format!(
+                        r#"{{"timestamp":"{t}","symbol":"{market}","side":"{s}","size":{size},"price":{},"tickDirection":"MinusTick","trdMatchID":"31e50cb7-e005-a44e-f354-86e88dff52e{v}","grossValue":814184,"homeNotional":0.00814184,"foreignNotional":{size},"trdType":"Regular"}}"#,
+                        price(midx, v)
+                    ),
+                    trade_exp(vec![ms(t_ms(midx, v))], &price(midx, v), vec![size as f64], side),
+                )
+            };
+            let wrap = |rows: Vec<String>| format!(r#"{{"table":"trade","action":"insert","data":[{}]}}"#, rows.join(","));
+            let (r0, e0) = row(0, Side::Buy);
+            let (r1, e1) = row(1, Side::Sell);
+            out.push(m("buy", wrap(vec![r0.clone()]), vec![e0.clone()]));
+            out.push(m("sell", wrap(vec![r1.clone()]), vec![e1.clone()]));
+            out.push(m("batch-2", wrap(vec![r1, r0]), vec![e1, e0]));
+        }
+        (Fam::Bybit, _) => {
+            let row = |v: usize, side: Side| {
+                let s = if side == Side::Buy { "Buy" } else { "Sell" };
+                (
+                    format!(
+                        r#"{{"T":{},"s":"{market}","S":"{s}","v":"{}","p":"{}","L":"PlusTick","i":"20f43950-d8dd-5b31-9112-a178eb6023a{v}","BT":false}}"#,
+                        t_ms(midx, v),
+                        QTY[v],
+                        price(midx, v)
+                    ),
+                    (v, side),
+                )
+            };
+            let wrap = |rows: Vec<(String, (usize, Side))>| {
+                let ts = t_ms(midx, 3);
+                let json = format!(
+                    r#"{{"topic":"publicTrade.{market}","type":"snapshot","ts":{ts},"data":[{}]}}"#,
+                    rows.iter().map(|r| r.0.clone()).collect::<Vec<_>>().join(",")
+                );
+                let exp = rows
+                    .iter()
+                    .map(|(_, (v, side))| trade_exp(vec![ms(t_ms(midx, *v)), ms(ts)], &price(midx, *v), vec![f(QTY[*v])], *side))
+                    .collect();
+                (json, exp)
+            };
+            let (j, e) = wrap(vec![row(0, Side::Buy)]);
+            out.push(m("buy", j, e));
+            let (j, e) = wrap(vec![row(1, Side::Sell)]);
+            out.push(m("sell", j, e));
+            let (j, e) = wrap(vec![row(1, Side::Sell), row(0, Side::Buy)]);
+            out.push(m("batch-2", j, e));
+        }
+        (Fam::Coinbase, _) => {
+            for (v, side) in sides.iter().enumerate() {
+                let t = us(t_ms(midx, v) * 1000 + 459);
+                let s = if *side == Side::Buy { "buy" } else { "sell" };
+                let json = format!(
+                    r#"{{"type":"match","trade_id":{},"sequence":50,"maker_order_id":"ac928c66-ca53-498f-9c13-a110027a60e8","taker_order_id":"132fb6ae-456b-4654-b4e0-d681ac05cea1","time":"{}","product_id":"{market}","size":"{}","price":"{}","side":"{s}"}}"#,
+                    10 + v,
+                    t.to_rfc3339_opts(SecondsFormat::Micros, true),
+                    QTY[v],
+                    price(midx, v)
+                );
+                out.push(m(if v == 0 { "buy" } else { "sell" }, json, vec![trade_exp(vec![t], &price(midx, v), vec![f(QTY[v])], *side)]));
+            }
+        }
+        (Fam::Gateio, _) if spec.id == ExchangeId::GateioSpot => {
+            for (v, side) in sides.iter().enumerate() {
+                let t = t_ms(midx, v);
+                let s = if *side == Side::Buy { "buy" } else { "sell" };
+                let json = format!(
+                    r#"{{"time":{},"time_ms":{},"channel":"spot.trades","event":"update","result":{{"id":{},"create_time":{},"create_time_ms":"{t}.4578","side":"{s}","currency_pair":"{market}","amount":"{}","price":"{}"}}}}"#,
+                    t / 1000,
+                    t + 18,
+                    309143071 + v,
+                    t / 1000,
+                    QTY[v],
+                    price(midx, v)
+                );
+                let times = vec![us(t * 1000 + 458), ms(t / 1000 * 1000), ms(t + 18)];
+                out.push(m(if v == 0 { "buy" } else { "sell" }, json, vec![trade_exp(times, &price(midx, v), vec![f(QTY[v])], *side)]));
+            }
+        }
+        (Fam::Gateio, _) => {
+            // delivery / perpetual / options trades: the side is the sign of `size`
+            // (perpetual/trade.rs doc comment + futures fixture; futures ws doc names the channel `futures.trades`,
+            // options ws doc `options.trades`).
+            let channel = if spec.id == ExchangeId::GateioOptions { "options.trades" } else { "futures.trades" };
+            let row = |v: usize, side: Side| {
+                let t = t_ms(midx, v);
+                let size: i64 = if side == Side::Buy { 3 + v as i64 } else { -(108 + v as i64) };
+                (
+                    format!(
+                        r#"{{"size":{size},"id":{},"create_time":{},"create_time_ms":{t},"price":"{}","contract":"{market}"}}"#,
+                        27753479 + v,
+                        t / 1000,
+                        price(midx, v)
+                    ),
+                    trade_exp(vec![ms(t), ms(t / 1000 * 1000)], &price(midx, v), vec![size.abs() as f64, size as f64], side),
+                )
+            };
+            let wrap = |rows: Vec<String>| {
+                format!(r#"{{"time":{},"time_ms":{},"channel":"{channel}","event":"update","result":[{}]}}"#, t_ms(midx, 0) / 1000, t_ms(midx, 0), rows.join(","))
+            };
+            let (r0, e0) = row(0, Side::Buy);
+            let (r1, e1) = row(1, Side::Sell);
+            out.push(m("buy", wrap(vec![r0.clone()]), vec![e0.clone()]));
+            out.push(m("sell", wrap(vec![r1.clone()]), vec![e1.clone()]));
+            out.push(m("batch-2", wrap(vec![r1, r0]), vec![e1, e0]));
+        }
+        (Fam::Kraken, SK::Trades) => {
+            // kraken/message.rs doc comment: [channelID, [[price, volume, time, side, orderType, misc]..], "trade", pair]
+            let row = |v: usize, side: Side| {
+                let t_us = t_ms(midx, v) * 1000 + 500;
+                let s = if side == Side::Buy { "b" } else { "s" };
+                (
+                    format!(r#"["{}","{}","{}.{:06}","{s}","l",""]"#, price(midx, v), QTY[v], t_us / 1_000_000, t_us % 1_000_000),
+                    trade_exp(vec![us(t_us)], &price(midx, v), vec![f(QTY[v])], side),
+                )
+            };
+            let wrap = |rows: Vec<String>| format!(r#"[0,[{}],"trade","{market}"]"#, rows.join(","));
+            let (r0, e0) = row(0, Side::Buy);
+            let (r1, e1) = row(1, Side::Sell);
+            out.push(m("buy", wrap(vec![r0.clone()]), vec![e0.clone()]));
+            out.push(m("sell", wrap(vec![r1.clone()]), vec![e1.clone()]));
+            out.push(m("batch-2", wrap(vec![r1, r0]), vec![e1, e0]));
+        }
+        (Fam::Kraken, _) => {
+            // [channelID, [bid, ask, timestamp, bidVolume, askVolume], "spread", pair]
+            for v in 0..2 {
+                let t_us = t_ms(midx, v) * 1000 + 500;
+                let (bp, ap) = (price(midx, v), price(midx, v + 2));
+                let json = format!(r#"[0,["{bp}","{ap}","{}.{:06}","{}","{}"],"spread","{market}"]"#, t_us / 1_000_000, t_us % 1_000_000, QTY[v], QTY[v + 1]);
+                let nums = vec![vec![f(&bp)], vec![f(QTY[v])], vec![f(&ap)], vec![f(QTY[v + 1])]];
+                out.push(m(if v == 0 { "spread-0" } else { "spread-1" }, json, vec![Exp { times: vec![us(t_us)], nums, side: None }]));
+            }
+        }
+        (Fam::Okx, _) => {
+            let row = |v: usize, side: Side| {
+                let s = if side == Side::Buy { "buy" } else { "sell" };
+                (
+                    format!(
+                        r#"{{"instId":"{market}","tradeId":"{}","px":"{}","sz":"{}","side":"{s}","ts":"{}"}}"#,
+                        130639474 + v,
+                        price(midx, v),
+                        QTY[v],
+                        t_ms(midx, v)
+                    ),
+                    trade_exp(vec![ms(t_ms(midx, v))], &price(midx, v), vec![f(QTY[v])], side),
+                )
+            };
+            let wrap = |rows: Vec<String>| format!(r#"{{"arg":{{"channel":"trades","instId":"{market}"}},"data":[{}]}}"#, rows.join(","));
+            let (r0, e0) = row(0, Side::Buy);
+            let (r1, e1) = row(1, Side::Sell);
+            out.push(m("buy", wrap(vec![r0.clone()]), vec![e0.clone()]));
+            out.push(m("sell", wrap(vec![r1.clone()]), vec![e1.clone()]));
+            out.push(m("batch-2", wrap(vec![r1, r0]), vec![e1, e0]));
+        }
+        (Fam::Bitfinex, _) => unreachable!("bitfinex messages need the handshake's channel ids"),
+    }
+    out
+}
+
+/// Bitfinex data messages: `[CHANNEL_ID,"te",[ID,MTS,±AMOUNT,PRICE]]` (bitfinex/message.rs doc comment). The venue
+/// only sends data on channels it allocated; for a market nobody subscribed the harness uses a channel id that
+/// was never allocated.
+fn bitfinex_msgs(universe: &[String], table: &BTreeMap<String, u32>) -> Vec<Msg> {
+    let mut out = Vec::new();
+    for (midx, market) in universe.iter().enumerate() {
+        let chan = table.get(market).copied().unwrap_or(900_000 + midx as u32);
+        for (v, side) in [Side::Buy, Side::Sell].into_iter().enumerate() {
+            let amount = if side == Side::Buy { f(QTY[v]) } else { -f(QTY[v]) };
+            let json = format!(r#"[{chan},"te",[{},{},{amount},{}]]"#, 1225484398u64 + v as u64, t_ms(midx, v), price(midx, v));
+            out.push(Msg {
+                market: market.clone(),
+                variant: if v == 0 { "buy" } else { "sell" },
+                json,
+                expect: vec![trade_exp(vec![ms(t_ms(midx, v))], &price(midx, v), vec![amount.abs(), amount], side)],
+            });
+        }
+    }
+    out
+}
+
+// ------------------------------------------------------------------------------------------------
+// Observation side: event facts
+// ------------------------------------------------------------------------------------------------
+
+trait Ev: Sized + Debug {
+    fn nums(&self) -> Vec<f64>;
+    fn side(&self) -> Option<Side> {
+        None
+    }
+    /// Initial snapshot the (L2) transformer needs for a subscribed key; built with the real conversion
+    /// the snapshot fetcher uses (`MarketEvent::from((ExchangeId, key, BinanceOrderBookL2Snapshot))`).
+    fn snapshot<K>(_: ExchangeId, _: K) -> Option<MarketEvent<K, Self>> {
+        None
+    }
+}
+fn d(x: Decimal) -> f64 {
+    x.to_f64().unwrap_or(f64::NAN)
+}
+impl Ev for PublicTrade {
+    fn nums(&self) -> Vec<f64> {
+        vec![self.price, self.amount]
+    }
+    fn side(&self) -> Option<Side> {
+        Some(self.side)
+    }
+}
+impl Ev for Liquidation {
+    fn nums(&self) -> Vec<f64> {
+        vec![self.price, self.quantity]
+    }
+    fn side(&self) -> Option<Side> {
+        Some(self.side)
+    }
+}
+impl Ev for OrderBookL1 {
+    fn nums(&self) -> Vec<f64> {
+        let lvl = |l: &Option<barter_data::books::Level>| l.map(|l| (d(l.price), d(l.amount))).unwrap_or((f64::NAN, f64::NAN));
+        let (b, a) = (lvl(&self.best_bid), lvl(&self.best_ask));
+        vec![b.0, b.1, a.0, a.1]
+    }
+}
+impl Ev for OrderBookEvent {
+    fn nums(&self) -> Vec<f64> {
+        let book: &OrderBook = match self {
+            OrderBookEvent::Snapshot(b) | OrderBookEvent::Update(b) => b,
+        };
+        book.bids().levels().iter().chain(book.asks().levels()).flat_map(|l| [d(l.price), d(l.amount)]).collect()
+    }
+    fn snapshot<K>(ex: ExchangeId, key: K) -> Option<MarketEvent<K, Self>> {
+        let snap: BinanceOrderBookL2Snapshot =
+            serde_json::from_str(r#"{"lastUpdateId":100,"bids":[["4.00000000","431.00000000"]],"asks":[["4.00000200","12.00000000"]]}"#).unwrap();
+        Some(MarketEvent::from((ex, key, snap)))
+    }
+}
+
+#[derive(Clone, Debug)]
+struct ObsEv {
+    /// canonical menu index of the key the event carries (None = a key that is not in the menu at all)
+    key: Option<usize>,
+    exchange: ExchangeId,
+    time: DateTime<Utc>,
+    nums: Vec<f64>,
+    side: Option<Side>,
+}
+#[derive(Clone, Debug)]
+enum MsgObs {
+    DeErr(String),
+    Panic,
+    Out(Vec<Result<ObsEv, String>>),
+}
+
+struct Driven {
+    /// canonical menu index per menu position (first menu entry with an equal key)
+    canon: Vec<usize>,
+    /// (subscription id, canonical key index) of the table the transformer was initialised with
+    map_ids: Vec<(String, Option<usize>)>,
+    /// handshake / init failure, if any
+    setup_err: Option<String>,
+    /// the Bitfinex handshake failed twice without the scripted venue having rejected anything (time-out / IO):
+    /// not a verdict yet – re-run sequentially with environment health checks at the end of the exploration
+    unsettled: bool,
+    msgs: Vec<Msg>,
+    obs: Vec<MsgObs>,
+}
+
+// ------------------------------------------------------------------------------------------------
+// Generic driver over the real types
+// ------------------------------------------------------------------------------------------------
+
+/// Names the transformer type inside the `ExchangeWsStream<T>` a connector's `StreamSelector` selects.
+trait HasTransformer {
+    type T;
+}
+impl<P, S, T> HasTransformer for ExchangeStream<P, S, T>
+where
+    P: StreamParser,
+    S: Stream,
+    T: Transformer,
+{
+    type T = T;
+}
+type TOf<Ex, Inst, Kind> = <<Ex as StreamSelector<Inst, Kind>>::Stream as HasTransformer>::T;
+
+struct Args<'a> {
+    spec: &'a PairSpec,
+    /// ordered menu indices of the subscribed instruments
+    subset: &'a [usize],
+    /// only these (market, variant) messages (replay); None = all
+    only: Option<(&'a str, Option<&'a str>)>,
+}
+
+fn drive<Ex, Inst, Kind>(kind: Kind, a: &Args) -> Driven
+where
+    Ex: Connector + StreamSelector<Inst, Kind> + Send,
+    Inst: Flav,
+    Inst::Key: PartialEq + 'static,
+    Kind: SubscriptionKind + Send,
+    Kind::Event: Ev,
+    Subscription<Ex, Inst, Kind>: Identifier<Ex::Channel> + Identifier<Ex::Market>,
+    <Ex as StreamSelector<Inst, Kind>>::Stream: HasTransformer,
+    TOf<Ex, Inst, Kind>: ExchangeTransformer<Ex, Inst::Key, Kind>,
+{
+    let spec = a.spec;
+    assert_eq!(Ex::ID, spec.id, "pair table and connector type disagree");
+    let menu_insts: Vec<Inst> = Inst::build_menu(spec);
+    let canon: Vec<usize> = (0..menu_insts.len())
+        .map(|i| (0..=i).find(|j| menu_insts[*j].key() == menu_insts[i].key()).unwrap())
+        .collect();
+    let key_idx = |k: &Inst::Key| menu_insts.iter().position(|m| m.key() == k);
+
+    // subscription side: the real mapper
+    let subs: Vec<Subscription<Ex, Inst, Kind>> =
+        a.subset.iter().map(|i| Subscription::new(Ex::default(), menu_insts[*i].clone(), kind.clone())).collect();
+    let meta: SubscriptionMeta<Inst::Key> = WebSocketSubMapper::map::<Ex, Inst, Kind>(&subs);
+
+    let universe = spec.universe();
+    let mut driven = Driven { canon, map_ids: vec![], setup_err: None, unsettled: false, msgs: vec![], obs: vec![] };
+
+    // Bitfinex: the real validator re-keys the table with the venue's channel ids
+    let (map, mut msgs): (Map<Inst::Key>, Vec<Msg>) = if spec.fam == Fam::Bitfinex {
+        // an attempt that fails although the scripted venue rejected nothing (time-out, IO) is repeated once
+        let mut attempt = bitfinex_handshake::<Inst::Key>(meta, &universe);
+        if matches!(&attempt, Err((_, false))) {
+            attempt = bitfinex_handshake::<Inst::Key>(WebSocketSubMapper::map::<Ex, Inst, Kind>(&subs), &universe);
+        }
+        match attempt {
+            Ok((map, table)) => (map, bitfinex_msgs(&universe, &table)),
+            Err((e, venue_rejected)) => {
+                driven.setup_err = Some(format!("bitfinex subscription handshake failed: {e}"));
+                driven.unsettled = !venue_rejected;
+                return driven;
+            }
+        }
+    } else {
+        (meta.instrument_map, universe.iter().enumerate().flat_map(|(midx, mkt)| make_msgs(spec, mkt, midx)).collect())
+    };
+    if let Some((mkt, var)) = a.only {
+        // stateful (L2) transformers need the earlier messages of the same market, so only filter by variant
+        // when the kind is stateless
+        msgs.retain(|m| m.market == mkt && (spec.sk == SK::L2 || var.is_none_or(|v| v == m.variant)));
+    }
+    driven.map_ids = {
+        let mut v: Vec<_> = map.0.iter().map(|(id, k)| (id.0.to_string(), key_idx(k).map(|i| driven.canon[i]))).collect();
+        v.sort();
+        v
+    };
+
+    // snapshots for the subscribed keys (L2 only), then the real transformer constructor
+    let snapshots: Vec<MarketEvent<Inst::Key, Kind::Event>> =
+        subs.iter().filter_map(|s| <Kind::Event as Ev>::snapshot(Ex::ID, s.instrument.key().clone())).collect();
+    let (tx, _rx) = tokio::sync::mpsc::unbounded_channel::<WsMessage>();
+    let mut transformer = match futures::executor::block_on(<TOf<Ex, Inst, Kind> as ExchangeTransformer<Ex, Inst::Key, Kind>>::init(map, &snapshots, tx)) {
+        Ok(t) => t,
+        Err(e) => {
+            driven.setup_err = Some(format!("transformer init failed: {e}"));
+            return driven;
+        }
+    };
+
+    // message side: real deserialisation + real transform
+    for msg in &msgs {
+        let input = match serde_json::from_str::<<TOf<Ex, Inst, Kind> as Transformer>::Input>(&msg.json) {
+            Ok(i) => i,
+            Err(e) => {
+                driven.obs.push(MsgObs::DeErr(e.to_string()));
+                continue;
+            }
+        };
+        let res = catch_unwind(AssertUnwindSafe(|| transformer.transform(input).into_iter().collect::<Vec<_>>()));
+        driven.obs.push(match res {
+            Err(_) => MsgObs::Panic,
+            Ok(items) => MsgObs::Out(
+                items
+                    .into_iter()
+                    .map(|r| match r {
+                        Ok(ev) => Ok(ObsEv {
+                            key: key_idx(&ev.instrument).map(|i| driven.canon[i]),
+                            exchange: ev.exchange,
+                            time: ev.time_exchange,
+                            nums: ev.kind.nums(),
+                            side: ev.kind.side(),
+                        }),
+                        Err(e) => Err(format!("{e} / {e:?}")),
+                    })
+                    .collect(),
+            ),
+        });
+    }
+    driven.msgs = msgs;
+    driven
+}
+
+/// Scripted Bitfinex on loopback TCP (bitfinex/subscription.rs doc comments): `info` event on connect; every
+/// `{"event":"subscribe","channel":"trades","symbol":S}` is answered with `subscribed` (fresh chanId, symbol echoed)
+/// followed by the channel's initial snapshot `[chanId,[[ID,MTS,AMOUNT,PRICE],..]]` if `S` is a symbol the venue lists,
+/// with error 10300 otherwise and error 10301 for a duplicate subscribe. The client side is the real
+/// `BitfinexWebSocketSubValidator::validate` on a real `WebSocket`. Returns the re-keyed table and the venue's
+/// symbol -> chanId allocation; on failure the error text and whether the scripted venue had rejected a request.
+fn bitfinex_handshake<K: Send + 'static>(meta: SubscriptionMeta<K>, venue_symbols: &[String]) -> Result<(Map<K>, BTreeMap<String, u32>), (String, bool)> {
+    use tokio_tungstenite::tungstenite::Message;
+    let rejected = std::cell::Cell::new(false);
+    let rejected = &rejected;
+    let rt = tokio::runtime::Builder::new_current_thread().enable_all().build().map_err(|e| (e.to_string(), false))?;
+    let res: Result<_, String> = rt.block_on(async move {
+        let listener = tokio::net::TcpListener::bind("127.0.0.1:0").await.map_err(|e| format!("bind: {e}"))?;
+        let port = listener.local_addr().map_err(|e| e.to_string())?.port();
+        let n_requests = meta.ws_subscriptions.len();
+
+        let server = async {
+            let (stream, _) = listener.accept().await.map_err(|e| format!("accept: {e}"))?;
+            let mut ws = tokio_tungstenite::accept_async(stream).await.map_err(|e| format!("ws accept: {e}"))?;
+            let send = |v: Value| Message::text(v.to_string());
+            ws.send(send(json!({"event":"info","version":2,"serverId":"vcheck","platform":{"status":1}}))).await.map_err(|e| e.to_string())?;
+            let mut table: BTreeMap<String, u32> = BTreeMap::new();
+            let mut seen = 0usize;
+            while seen < n_requests {
+                let Some(Ok(msg)) = ws.next().await else { break };
+                let Message::Text(text) = msg else { continue };
+                let Ok(req) = serde_json::from_str::<Value>(&text) else { continue };
+                if req["event"] != "subscribe" {
+                    continue;
+                }
+                seen += 1;
+                let symbol = req["symbol"].as_str().unwrap_or("").to_string();
+                if req["channel"] != "trades" || !venue_symbols.contains(&symbol) {
+                    rejected.set(true);
+                    ws.send(send(json!({"event":"error","msg":"symbol: invalid","code":10300}))).await.map_err(|e| e.to_string())?;
+                } else if table.contains_key(&symbol) {
+                    rejected.set(true);
+                    ws.send(send(json!({"event":"error","msg":"subscribe: dup","code":10301}))).await.map_err(|e| e.to_string())?;
+                } else {
+                    let chan = 17 + 3 * table.len() as u32;
+                    table.insert(symbol.clone(), chan);
+                    ws.send(send(json!({"event":"subscribed","channel":"trades","chanId":chan,"symbol":symbol,"pair":symbol.trim_start_matches('t')})))
+                        .await
+                        .map_err(|e| e.to_string())?;
+                    ws.send(Message::text(format!("[{chan},[[1,1665452200022,0.5,19027.5],[2,1665452200023,-0.25,19027.0]]]"))).await.map_err(|e| e.to_string())?;
+                }
+            }
+            Ok::<_, String>((table, ws))
+        };
+
+        let client = async {
+            let mut ws = barter_integration::protocol::websocket::connect(format!("ws://127.0.0.1:{port}")).await.map_err(|e| format!("connect: {e}"))?;
+            for m in meta.ws_subscriptions {
+                ws.send(m).await.map_err(|e| format!("send: {e}"))?;
+            }
+            let (map, _buffered) = BitfinexWebSocketSubValidator::validate::<Bitfinex, K, PublicTrades>(meta.instrument_map, &mut ws)
+                .await
+                .map_err(|e| format!("validate: {e}"))?;
+            Ok::<_, String>((map, ws))
+        };
+
+        let (s, c) = tokio::join!(server, client);
+        let (table, _sws) = s?;
+        let (map, _cws) = c?;
+        Ok((map, table))
+    });
+    res.map_err(|e| (e, rejected.get()))
+}
+
+/// Machinery health probe (no code under test involved): a one-byte round trip over loopback TCP must complete
+/// within half a second of wall-clock time. Used only to decide whether an unexplained handshake failure may be
+/// turned into a verdict or is a machinery failure.
+fn loopback_healthy() -> bool {
+    use tokio::io::{AsyncReadExt, AsyncWriteExt};
+    let start = std::time::Instant::now();
+    let Ok(rt) = tokio::runtime::Builder::new_current_thread().enable_all().build() else { return false };
+    let ok = rt.block_on(async {
+        let Ok(l) = tokio::net::TcpListener::bind("127.0.0.1:0").await else { return false };
+        let Ok(addr) = l.local_addr() else { return false };
+        let srv = async {
+            let Ok((mut s, _)) = l.accept().await else { return false };
+            let mut b = [0u8; 1];
+            s.read_exact(&mut b).await.is_ok() && s.write_all(&b).await.is_ok()
+        };
+        let cli = async {
+            let Ok(mut c) = tokio::net::TcpStream::connect(addr).await else { return false };
+            let mut b = [7u8; 1];
+            c.write_all(&b).await.is_ok() && c.read_exact(&mut b).await.is_ok()
+        };
+        let (a, b) = tokio::join!(srv, cli);
+        a && b
+    });
+    ok && start.elapsed() < std::time::Duration::from_millis(500)
+}
+
+/// Dispatch (pair, flavour) to the monomorphic driver.
+fn run_config(pair: usize, flavour: usize, a: &Args) -> Driven {
+    macro_rules! arms {
+        ($( $i:literal => $ex:ty, $kind:expr ;)*) => {
+            match (pair, flavour) {
+                $(
+                    ($i, 0) => drive::<$ex, Keyed<u32, MarketDataInstrument>, _>($kind, a),
+                    ($i, 1) => drive::<$ex, MarketInstrumentData<u32>, _>($kind, a),
+                    ($i, 2) => drive::<$ex, MarketDataInstrument, _>($kind, a),
+                    ($i, 3) => drive::<$ex, MarketInstrumentData<InstrumentIndex>, _>($kind, a),
+                )*
+                _ => unreachable!("unknown pair/flavour"),
+            }
+        };
+    }
+    arms! {
+        0 => BinanceSpot, PublicTrades;
+        1 => BinanceSpot, OrderBooksL1;
+        2 => BinanceSpot, OrderBooksL2;
+        3 => BinanceFuturesUsd, PublicTrades;
+        4 => BinanceFuturesUsd, OrderBooksL1;
+        5 => BinanceFuturesUsd, OrderBooksL2;
+        6 => BinanceFuturesUsd, Liquidations;
+        7 => Bitfinex, PublicTrades;
+        8 => Bitmex, PublicTrades;
+        9 => BybitSpot, PublicTrades;
+        10 => BybitPerpetualsUsd, PublicTrades;
+        11 => Coinbase, PublicTrades;
+        12 => GateioSpot, PublicTrades;
+        13 => GateioFuturesUsd, PublicTrades;
+        14 => GateioFuturesBtc, PublicTrades;
+        15 => GateioPerpetualsUsd, PublicTrades;
+        16 => GateioPerpetualsBtc, PublicTrades;
+        17 => GateioOptions, PublicTrades;
+        18 => Kraken, PublicTrades;
+        19 => Kraken, OrderBooksL1;
+        20 => Okx, PublicTrades;
+    }
+}
+
+// ------------------------------------------------------------------------------------------------
+// Oracle
+// ------------------------------------------------------------------------------------------------
+
+#[derive(Default)]
+struct Stats {
+    configs: AtomicU64,
+    evaluations: AtomicU64,
+    events_checked: AtomicU64,
+    subscribed_msgs: AtomicU64,
+    unsubscribed_msgs: AtomicU64,
+    collision_msgs: AtomicU64,
+    collision_configs: AtomicU64,
+    collision_handshake_rejected: AtomicU64,
+}
+
+fn denotes_unidentifiable(err: &str, market: &str) -> bool {
+    let l = err.to_lowercase();
+    l.contains("unidentifiable") || l.contains("unidentified") || l.contains("unknown subscription") || err.contains(market)
+}
+
+fn near(a: f64, b: f64) -> bool {
+    (a - b).abs() <= 1e-9 * b.abs().max(1.0)
+}
+
+/// Why does the table not know the id the message produces? Compares the market part of the table's id for an
+/// owner with the venue's way of writing the market.
+fn cause_of_miss(d: &Driven, owners: &BTreeSet<usize>, market: &str) -> &'static str {
+    let strip = |s: &str| s.chars().filter(|c| !c.is_ascii_digit()).collect::<String>();
+    for (id, k) in &d.map_ids {
+        if k.is_some_and(|k| owners.contains(&k)) {
+            let mkt = id.rsplit_once('|').map(|x| x.1).unwrap_or(id);
+            return if mkt == market {
+                "channel-part-differs"
+            } else if mkt.eq_ignore_ascii_case(market) {
+                "market-case-differs"
+            } else if strip(mkt) == strip(market) {
+                "market-digits-differ"
+            } else {
+                "market-differs"
+            };
+        }
+    }
+    "owner-not-in-table"
+}
+
+/// Evaluate the oracle over every message of one configuration. `report(signature, detail, market, variant)`.
+fn judge(spec: &PairSpec, flavour: usize, subset: &[usize], d: &Driven, stats: &Stats, outcomes: &mut BTreeSet<String>, report: &mut dyn FnMut(String, String, &str, &str)) {
+    let fam = format!("{:?}", spec.fam);
+    let flav = FLAVOURS[flavour];
+    // signature component: how the market was obtained (keyed and plain share the connector's `*_market` function)
+    let how = if flavour == 1 || flavour == 3 { "exchange-name" } else { "derived-from-base-quote" };
+    // owners per venue market (canonical key indices)
+    let owners_of = |market: &str| -> BTreeSet<usize> {
+        subset.iter().filter(|i| venue_symbol(spec.fam, &spec.menu[**i]) == market).map(|i| d.canon[*i]).collect()
+    };
+    let kinds_of = |market: &str| -> &'static str {
+        subset.iter().find(|i| venue_symbol(spec.fam, &spec.menu[**i]) == market).map(|i| spec.menu[*i].kind.tag()).unwrap_or("-")
+    };
+    // two subscriptions (even for an identical instrument) under one venue market
+    let colliding = spec.universe().iter().any(|m| subset.iter().filter(|i| venue_symbol(spec.fam, &spec.menu[**i]) == *m).count() > 1);
+    if colliding {
+        stats.collision_configs.fetch_add(1, Relaxed);
+    }
+
+    if let Some(e) = &d.setup_err {
+        // The connection could not even be set up: every subscribed market is lost. A venue refusing a duplicate
+        // subscribe of two instruments sharing one market is a configuration the statement cannot separate.
+        if colliding && spec.fam == Fam::Bitfinex {
+            stats.collision_handshake_rejected.fetch_add(1, Relaxed);
+            return;
+        }
+        let m = venue_symbol(spec.fam, &spec.menu[subset[0]]);
+        let what = if !e.contains("handshake") {
+            "transformer-init-failed"
+        } else if d.unsettled {
+            "subscription-validation-does-not-complete"
+        } else {
+            "venue-rejects-subscription"
+        };
+        report(format!("C13/R1-subscribed-market-lost/{fam}/{}/{how}/{what}", kinds_of(&m)), format!("pair={} subset={subset:?}: {e}", spec.name), &m, "");
+        return;
+    }
+
+    for (msg, obs) in d.msgs.iter().zip(&d.obs) {
+        stats.evaluations.fetch_add(1, Relaxed);
+        let owners = owners_of(&msg.market);
+        let mut rep = |sig: String, detail: String| report(sig, format!("pair={} flavour={flav} subset={subset:?} market={} variant={} table={:?}: {detail}", spec.name, msg.market, msg.variant, d.map_ids), &msg.market, msg.variant);
+        let class: String;
+        if owners.is_empty() {
+            // ---- R5: nobody subscribed this market
+            stats.unsubscribed_msgs.fetch_add(1, Relaxed);
+            class = match obs {
+                MsgObs::DeErr(e) => {
+                    rep(format!("C13/R5-unsubscribed/{fam}/payload-not-deserialisable"), format!("deserialise error {e}"));
+                    "unsub:de-err".into()
+                }
+                MsgObs::Panic => {
+                    rep(format!("C13/R5-unsubscribed/{fam}/panic"), "transform panicked".into());
+                    "unsub:panic".into()
+                }
+                MsgObs::Out(items) if items.is_empty() => {
+                    rep(format!("C13/R5-unsubscribed/{fam}/silently-dropped"), "no output at all, expected an unidentifiable-subscription error".into());
+                    "unsub:empty".into()
+                }
+                MsgObs::Out(items) => {
+                    let mut c = "unsub:unidentifiable-error";
+                    for it in items {
+                        match it {
+                            Ok(ev) => {
+                                rep(
+                                    format!("C13/R5-unsubscribed/{fam}/event-for-other-instrument"),
+                                    format!("message for a market nobody subscribed produced an event carrying key {:?}", ev.key),
+                                );
+                                c = "unsub:event";
+                            }
+                            Err(e) if !denotes_unidentifiable(e, &msg.market) => {
+                                rep(format!("C13/R5-unsubscribed/{fam}/other-error"), format!("error does not denote an unidentifiable subscription: {e}"));
+                                c = "unsub:other-error";
+                            }
+                            Err(_) => {}
+                        }
+                    }
+                    c.into()
+                }
+            };
+        } else {
+            // ---- R1..R4: at least one subscribed instrument under this market
+            stats.subscribed_msgs.fetch_add(1, Relaxed);
+            if owners.len() > 1 {
+                stats.collision_msgs.fetch_add(1, Relaxed);
+            }
+            let ik = kinds_of(&msg.market);
+            class = match obs {
+                MsgObs::DeErr(e) => {
+                    rep(format!("C13/R1-subscribed-no-event/{fam}/{how}/{ik}/payload-not-deserialisable"), format!("deserialise error {e}"));
+                    "sub:de-err".into()
+                }
+                MsgObs::Panic => {
+                    rep(format!("C13/R1-subscribed-no-event/{fam}/{how}/{ik}/panic"), "transform panicked".into());
+                    "sub:panic".into()
+                }
+                MsgObs::Out(items) => {
+                    let mut c = String::from("sub:ok");
+                    if let Some(e) = items.iter().find_map(|i| i.as_ref().err()) {
+                        if denotes_unidentifiable(e, &msg.market) {
+                            let cause = cause_of_miss(d, &owners, &msg.market);
+                            rep(
+                                if cause == "market-differs" || cause == "channel-part-differs" {
+                                    format!("C13/R1-subscribed-market-unidentifiable/{fam}/{how}/{cause}/{ik}")
+                                } else {
+                                    format!("C13/R1-subscribed-market-unidentifiable/{fam}/{how}/{cause}")
+                                },
+                                format!("message for a subscribed market was rejected: {e}"),
+                            );
+                            c = format!("sub:unidentifiable:{cause}");
+                        } else {
+                            rep(format!("C13/R1-subscribed-no-event/{fam}/{how}/{ik}/other-error"), format!("error instead of event: {e}"));
+                            c = "sub:other-error".into();
+                        }
+                    } else if items.len() != msg.expect.len() {
+                        rep(
+                            format!("C13/R1-event-count/{fam}/{how}/{}", if items.len() < msg.expect.len() { "too-few" } else { "too-many" }),
+                            format!("{} events for a payload stating {} trades/updates", items.len(), msg.expect.len()),
+                        );
+                        c = "sub:count".into();
+                    } else {
+                        for (ev, exp) in items.iter().map(|i| i.as_ref().unwrap()).zip(&msg.expect) {
+                            stats.events_checked.fetch_add(1, Relaxed);
+                            if !ev.key.is_some_and(|k| owners.contains(&k)) {
+                                rep(
+                                    format!("C13/R2-misattributed/{fam}/{how}"),
+                                    format!("event carries key {:?}, instruments subscribed under this market: {owners:?}", ev.key),
+                                );
+                                c = "sub:misattributed".into();
+                            }
+                            if ev.exchange != spec.id {
+                                rep(format!("C13/R3-exchange-id/{fam}/{how}"), format!("event exchange {} != {}", ev.exchange, spec.id));
+                                c = "sub:exchange".into();
+                            }
+                            let vals_ok = ev.nums.len() == exp.nums.len() && ev.nums.iter().zip(&exp.nums).all(|(g, alts)| alts.iter().any(|w| near(*g, *w)));
+                            if !vals_ok {
+                                rep(
+                                    format!("C13/R4-values/{fam}/{:?}/price-or-amount", spec.sk),
+                                    format!("event numbers {:?}, payload states {:?}", ev.nums, exp.nums),
+                                );
+                                c = "sub:values".into();
+                            }
+                            if ev.side != exp.side {
+                                rep(format!("C13/R4-values/{fam}/{:?}/side", spec.sk), format!("event side {:?}, payload states {:?}", ev.side, exp.side));
+                                c = "sub:side".into();
+                            }
+                            if !exp.times.is_empty() && !exp.times.iter().any(|t| (ev.time - *t).num_microseconds().is_some_and(|us| us.abs() <= 1000)) {
+                                rep(
+                                    format!("C13/R4-values/{fam}/{:?}/exchange-time", spec.sk),
+                                    format!("event time_exchange {}, payload carries {:?}", ev.time, exp.times),
+                                );
+                                c = "sub:time".into();
+                            }
+                        }
+                        if owners.len() > 1 && c == "sub:ok" {
+                            c = "sub:ok-collision".into();
+                        }
+                    }
+                    c
+                }
+            };
+        }
+        outcomes.insert(format!("{}|{flav}|{class}", spec.name));
+    }
+}
+
+// ------------------------------------------------------------------------------------------------
+// Exploration
+// ------------------------------------------------------------------------------------------------
+
+/// Ordered instrument sets: every subset up to `max_set` in ascending menu order, plus every other ordering for
+/// sets up to `max_perm` (order matters only when two instruments share a market: the table keeps the last).
+fn instrument_sets(n: usize, max_set: usize, max_perm: usize) -> Vec<Vec<usize>> {
+    use itertools::Itertools;
+    let mut out = Vec::new();
+    for k in 1..=max_set.min(n) {
+        for c in (0..n).combinations(k) {
+            if k <= max_perm {
+                for p in c.iter().copied().permutations(k) {
+                    out.push(p);
+                }
+            } else {
+                out.push(c);
+            }
+        }
+    }
+    out
+}
+
+fn case_json(spec: &PairSpec, flavour: usize, subset: &[usize], market: &str, variant: &str) -> Value {
+    json!({
+        "pair": spec.name,
+        "flavour": FLAVOURS[flavour],
+        "subset": subset,
+        "instruments": subset.iter().map(|i| format!("{}/{}:{:?}", spec.menu[*i].base, spec.menu[*i].quote, spec.menu[*i].kind)).collect::<Vec<_>>(),
+        "market": market,
+        "variant": variant,
+    })
+}
+
+pub fn run(ctx: &Ctx) -> Outcome {
+    let specs = pair_specs();
+    // sanity: every menu instrument is one `DynamicStreams::init` accepts for that (exchange, kind)
+    for s in &specs {
+        for m in &s.menu {
+            if !exchange_supports_instrument_kind_sub_kind(&s.id, &m.kind.real(), s.sk.sub_kind()) {
+                eprintln!("MACHINERY: C13 menu instrument {m:?} is not supported by DynamicStreams for {}", s.name);
+                std::process::exit(2);
+            }
+        }
+    }
+    let (max_set, max_perm) = ctx.tier.pick((3, 2), (8, 3));
+    // Bitfinex needs a TCP handshake per configuration: keep its sets a little smaller in the thorough tier
+    let bitfinex_max_set = ctx.tier.pick(3, 5);
+
+    let mut configs: Vec<(usize, usize, Vec<usize>)> = Vec::new();
+    for (pi, s) in specs.iter().enumerate() {
+        let ms = if s.fam == Fam::Bitfinex { max_set.min(bitfinex_max_set) } else { max_set };
+        for set in instrument_sets(s.menu.len(), ms, max_perm) {
+            for fl in 0..FLAVOURS.len() {
+                configs.push((pi, fl, set.clone()));
+            }
+        }
+    }
+
+    let stats = Stats::default();
+    let outcomes: Mutex<BTreeSet<String>> = Mutex::new(BTreeSet::new());
+    let tables = Distinct::default();
+    let samples = Samples::new(6);
+    let per_pair: Mutex<BTreeMap<&'static str, (u64, u64)>> = Mutex::new(BTreeMap::new());
+
+    let unsettled: Mutex<Vec<(usize, usize, Vec<usize>)>> = Mutex::new(Vec::new());
+    configs.par_iter().for_each(|(pi, fl, set)| {
+        let spec = &specs[*pi];
+        let d = run_config(*pi, *fl, &Args { spec, subset: set, only: None });
+        stats.configs.fetch_add(1, Relaxed);
+        if d.unsettled {
+            unsettled.lock().unwrap().push((*pi, *fl, set.clone()));
+            return;
+        }
+        tables.add(&(spec.name, *fl, &d.map_ids));
+        let mut local = BTreeSet::new();
+        judge(spec, *fl, set, &d, &stats, &mut local, &mut |sig, detail, market, variant| {
+            ctx.violate(sig, detail, case_json(spec, *fl, set, market, variant));
+        });
+        outcomes.lock().unwrap().extend(local);
+        {
+            let mut g = per_pair.lock().unwrap();
+            let e = g.entry(spec.name).or_insert((0, 0));
+            e.0 += 1;
+            e.1 += d.obs.len() as u64;
+        }
+        if set.len() == 2 && *fl == 1 && (*pi == 0 || *pi == 18 || *pi == 20) && set[0] == 0 {
+            samples.offer(|| json!({"case": case_json(spec, *fl, set, "", ""), "table": d.map_ids, "messages": d.msgs.len()}));
+        }
+    });
+
+    // Handshakes that failed without a venue rejection: repeat one by one in a quiet process, bracketed by
+    // environment health probes. A failure in a healthy environment is a verdict, otherwise machinery failure.
+    let mut unsettled = unsettled.into_inner().unwrap();
+    unsettled.sort();
+    let resettled = unsettled.len();
+    for (pi, fl, set) in unsettled {
+        let spec = &specs[pi];
+        let before = loopback_healthy();
+        let d = run_config(pi, fl, &Args { spec, subset: &set, only: None });
+        let after = loopback_healthy();
+        if d.unsettled && !(before && after) {
+            eprintln!("MACHINERY: C13 loopback handshake for {} {:?} failed in an unhealthy environment ({:?}); no verdict", spec.name, set, d.setup_err);
+            std::process::exit(2);
+        }
+        tables.add(&(spec.name, fl, &d.map_ids));
+        let mut local = BTreeSet::new();
+        judge(spec, fl, &set, &d, &stats, &mut local, &mut |sig, detail, market, variant| {
+            ctx.violate(sig, detail, case_json(spec, fl, &set, market, variant));
+        });
+        outcomes.lock().unwrap().extend(local);
+    }
+    let outcomes = outcomes.into_inner().unwrap();
+    let per_pair = per_pair.into_inner().unwrap();
+    Outcome {
+        level: "exploration",
+        coverage: json!({
+            "evaluations": stats.evaluations.load(Relaxed),
+            "distinct_nontrivial": outcomes.len(),
+            "distinct_subscription_tables": tables.len(),
+            "configurations": stats.configs.load(Relaxed),
+            "events_checked": stats.events_checked.load(Relaxed),
+            "messages_for_subscribed_markets": stats.subscribed_msgs.load(Relaxed),
+            "messages_for_unsubscribed_markets": stats.unsubscribed_msgs.load(Relaxed),
+            "informational_collision_configurations": stats.collision_configs.load(Relaxed),
+            "informational_collision_messages": stats.collision_msgs.load(Relaxed),
+            "informational_collision_bitfinex_duplicate_subscribe_rejected": stats.collision_handshake_rejected.load(Relaxed),
+            "bitfinex_handshakes_repeated_sequentially": resettled,
+            "connector_kind_pairs": specs.len(),
+            "flavours": FLAVOURS,
+            "max_set_size": max_set,
+            "max_permuted_set_size": max_perm,
+            "bitfinex": "full: real BitfinexWebSocketSubValidator::validate against a scripted venue on loopback TCP, data messages carry the allocated channel ids",
+            "per_pair_configs_and_messages": per_pair.iter().map(|(k, v)| json!({"pair": k, "configs": v.0, "messages": v.1})).collect::<Vec<_>>(),
+            "outcome_classes": outcomes.iter().collect::<Vec<_>>(),
+            "exhaustive": true,
+            "rule": "for each of the 21 DynamicStreams (connector, kind) arms x 3 instrument flavours x every ordered instrument set (bounds above) from the connector's menu: real WebSocketSubMapper::map -> [Bitfinex: real validator handshake] -> real ExchangeTransformer::init of the StreamSelector's transformer -> for every venue market (subscribed or not) 2-3 synthesised payloads -> serde_json::from_str::<Input> -> transform; oracle R1-R5 of the module doc",
+            "samples": samples.take(),
+        }),
+        assumptions: vec![
+            "payload templates and the venue's spelling of a market follow the raw payload examples in the connectors' doc comments / unit-test fixtures (message side only)".into(),
+            "Gate.io perpetual trades use channel `futures.trades` (the venue doc linked from the connector; the `perpetual.trades` string in one unit-test fixture is not a venue channel)".into(),
+            "MarketInstrumentData.name_exchange is the venue's own spelling of the market (the engine passes the exchange name verbatim)".into(),
+            "two subscribed instruments whose venue markets coincide (btc/usdt vs BTC/usdt, eth/btc vs ethb/tc on concatenating venues) cannot be separated: either key is accepted (informational counters)".into(),
+            "where the venue encodes the side in the sign of the size (Gate.io futures, Bitfinex) a signed or an absolute amount is accepted; any time stamp carried by the message is accepted as exchange time (1 ms tolerance)".into(),
+            "a batch payload carries trades of one market (as in every doc-comment example)".into(),
+            "Binance L2: the harness supplies the initial snapshot (lastUpdateId 100) through the real snapshot conversion since there is no network; updates are sequenced so that the sequencer accepts them".into(),
+            "instrument sets of at most max_set_size instruments per connection".into(),
+        ],
+    }
+}
+
+pub fn replay(ctx: &Ctx, case: &Value) {
+    let specs = pair_specs();
+    let name = case["pair"].as_str().unwrap_or("");
+    let Some(pi) = specs.iter().position(|s| s.name == name) else {
+        eprintln!("MACHINERY: C13 replay: unknown pair {name}");
+        std::process::exit(2)
+    };
+    let fl = FLAVOURS.iter().position(|f| Some(*f) == case["flavour"].as_str()).unwrap_or(0);
+    let subset: Vec<usize> = case["subset"].as_array().map(|a| a.iter().filter_map(|v| v.as_u64().map(|x| x as usize)).collect()).unwrap_or_default();
+    if subset.is_empty() || subset.iter().any(|i| *i >= specs[pi].menu.len()) {
+        eprintln!("MACHINERY: C13 replay: bad subset");
+        std::process::exit(2)
+    }
+    let market = case["market"].as_str().filter(|s| !s.is_empty());
+    let variant = case["variant"].as_str().filter(|s| !s.is_empty());
+    let spec = &specs[pi];
+    let d = run_config(pi, fl, &Args { spec, subset: &subset, only: market.map(|m| (m, variant)) });
+    if d.unsettled && !loopback_healthy() {
+        eprintln!("MACHINERY: C13 replay: loopback handshake failed in an unhealthy environment; no verdict");
+        std::process::exit(2)
+    }
+    println!("replay {} flavour={} subset={subset:?} table={:?} setup_err={:?}", spec.name, FLAVOURS[fl], d.map_ids, d.setup_err);
+    for (m, o) in d.msgs.iter().zip(&d.obs) {
+        println!("  payload[{} {}] {} -> {o:?}", m.market, m.variant, m.json);
+    }
+    let stats = Stats::default();
+    let mut oc = BTreeSet::new();
+    judge(spec, fl, &subset, &d, &stats, &mut oc, &mut |sig, detail, mk, var| {
+        // when the recorded case names a variant, only that message is the subject
+        if variant.is_none_or(|v| v == var) {
+            ctx.violate(sig, detail, case.clone());
+        }
+        let _ = mk;
+    });
 }
